@@ -221,7 +221,14 @@ def file_flags_to_mode(flags):
     """Convert file's open() flags into a readable string.
     Used by Process.open_files().
     """
-    modes_map = {os.O_RDONLY: 'r', os.O_WRONLY: 'w', os.O_RDWR: 'w+'}
+    modes_map = {
+        os.O_RDONLY: 'r',
+        os.O_WRONLY: 'w',
+        os.O_RDWR: 'w+',
+        # Linux-specific access mode 3 (see open(2)): no read()/write()
+        # allowed but the kernel checks for both permissions.
+        os.O_WRONLY | os.O_RDWR: 'w+',
+    }
     mode = modes_map[flags & (os.O_RDONLY | os.O_WRONLY | os.O_RDWR)]
     if flags & os.O_APPEND:
         mode = mode.replace('w', 'a', 1)
